@@ -120,7 +120,7 @@ def run(ctx):
                  sample={"smiles": s[:160], "variant": (s_variant or "")[:160], "selfies": x[:200]} if nb else None)
         return x
 
-    n = 700 if quick else 12000
+    n = 2000 if quick else 20000
     for i in range(n):
         if i % 50 == 0:
             t = rng.choice([{"?": 12}, {"?": 12}, "default", "hypervalent", "octet_rule", None])
